@@ -19,6 +19,7 @@ type Region struct {
 	zero     bool // zero-initialised (make/new); otherwise arbitrary initial contents
 	concrete bool // contents kept as a Go list of values with constant indices
 	// derived regions: the contents of a nested slice/string found at (parent, idx, path)
+	lineage int // identity for ghost prefix functions: shared by the regions an append chain produces
 	parent *Region
 	pidx   *Term
 	ppath  string
@@ -26,6 +27,7 @@ type Region struct {
 }
 
 type RegionState struct {
+	ver   int            // version: bumped on every write (identity of the contents for ghost recursive functions)
 	gen   int            // generation: bumped by havoc; names the default base arrays
 	comp  map[string]Mem // explicitly written components
 	elems []Value        // concrete mode
@@ -114,6 +116,7 @@ type CallRec struct {
 }
 
 type State struct {
+	unfolded map[int]bool // applications of recursive ghost functions already unfolded on this path
 	pc    []*Term
 	objs  map[*Object]Value
 	rgn   map[*Region]*RegionState
@@ -136,6 +139,12 @@ func (s *State) clone() *State {
 	}
 	for k, v := range s.rgn {
 		n.rgn[k] = v
+	}
+	if len(s.unfolded) > 0 {
+		n.unfolded = make(map[int]bool, len(s.unfolded))
+		for k := range s.unfolded {
+			n.unfolded[k] = true
+		}
 	}
 	return n
 }
@@ -274,7 +283,12 @@ func (u *Unit) setComp(st *State, r *Region, key string, m Mem) {
 		nc[k] = v
 	}
 	nc[key] = m
-	st.rgn[r] = &RegionState{gen: rs.gen, comp: nc, elems: rs.elems}
+	ver := rs.ver
+	if !u.appending {
+		u.nextID++
+		ver = u.nextID
+	}
+	st.rgn[r] = &RegionState{ver: ver, gen: rs.gen, comp: nc, elems: rs.elems}
 }
 
 func (u *Unit) havocRegion(st *State, r *Region) {
@@ -288,7 +302,7 @@ func (u *Unit) havocRegion(st *State, r *Region) {
 		return
 	}
 	u.nextID++
-	st.rgn[r] = &RegionState{gen: u.nextID}
+	st.rgn[r] = &RegionState{ver: u.nextID, gen: u.nextID}
 }
 
 func (u *Unit) derived(r *Region, idx *Term, path string, elem types.Type) *Region {
